@@ -12,7 +12,7 @@ import re
 from facts import AnalysisBroken
 from prog import walk, kids, short, access_kind
 from rules import flow
-from rules.common import strip_casts, const_of, norm_cond, written_value
+from rules.common import strip_casts, const_of, norm_cond, written_value, local_writes
 from rules.effects import canon
 
 LEVEL = 'proof'
@@ -23,6 +23,16 @@ EXPLANATION = ('Typestate abstract interpretation of the four key<->field relati
 
 POS = 'engine::Position'
 HK = 'engine::HashKey'
+
+
+def _file_of_local(e):
+    """`file(x)` with x a local or parameter: its name"""
+    e = strip_casts(e)
+    if (e.get('callee') or {}).get('n') == 'engine::file' and len(kids(e)) == 2:
+        r = strip_casts(kids(e)[1]).get('ref') or {}
+        if r.get('k') in ('Local', 'Parm'):
+            return r.get('n')
+    return None
 
 
 class TS:
@@ -48,7 +58,10 @@ class TS:
             elif nm == HK + '::set_enpassant':
                 a = canon(f, args[0], inline=False)
                 if a == 'file(_enpassant_square)':
-                    K = 'FILE-OF-FIELD' if F in ('SQ',) else 'FILE-OF-MAYBE-NO'
+                    K = 'FILE-OF-FIELD' if F.startswith('SQ') else 'FILE-OF-MAYBE-NO'
+                elif '=' in F and _file_of_local(args[0]) == F.split('=', 1)[1]:
+                    # the file of the local the field was just set from
+                    K = 'FILE-OF-FIELD' if F.startswith('SQ') else 'FILE-OF-MAYBE-NO'
                 else:
                     K = 'FILE-OTHER(%s)' % a
             elif nm == POS + '::set_enpassant_square':
@@ -58,6 +71,10 @@ class TS:
                 elif a.get('callee', {}).get('n') in ('engine::last_enpassant_square', POS + '::enpassant_square') or \
                         a.get('ref', {}).get('k') in ('Local', 'Parm', 'Field'):
                     F = 'MAYBE'
+                    ar = a.get('ref', {})
+                    if ar.get('k') in ('Local', 'Parm') and \
+                            all(f.cfg.path_avoiding(f.cfg.position(n), set(), {w['i']}) is None for w in local_writes(f, ar['id'])):
+                        F = 'MAYBE=' + ar['n']          # the field now equals this never-reassigned local: tests of it tell about the field
                 else:
                     F = 'SQ'
                 if K == 'FILE-OF-FIELD':
@@ -84,16 +101,18 @@ class TS:
         if c['k'] == 'BinaryOperator' and c.get('op') in ('==', '!='):
             a, b = [strip_casts(x) for x in kids(c)]
             for x, y in ((a, b), (b, a)):
-                if x.get('ref', {}).get('n') == POS + '::_enpassant_square' and const_of(y) == 64:
+                alias = F.split('=', 1)[1] if '=' in F else None
+                if (x.get('ref', {}).get('n') == POS + '::_enpassant_square' or
+                        (alias is not None and x.get('ref', {}).get('k') in ('Local', 'Parm') and x['ref'].get('n') == alias)) and const_of(y) == 64:
                     is_no = truth if c['op'] == '==' else not truth
                     if is_no:
-                        if F == 'SQ':
+                        if F.startswith('SQ'):
                             return None
                         F = 'NO'
                     else:
                         if F == 'NO':
                             return None
-                        F = 'SQ'
+                        F = 'SQ' + ('=' + alias if alias else '')
         return (C, F, K)
 
 
@@ -104,7 +123,7 @@ def in_sync(st, entry):
         oke = True
     elif F == 'NO':
         oke = K == 'CLEARED'
-    elif F == 'SQ':
+    elif F.startswith('SQ'):
         oke = K == 'FILE-OF-FIELD'
     else:
         oke = False
